@@ -1,31 +1,55 @@
 (* C09 — No device reply can crash the client or be mistaken for success *)
-Require Import AS.Base.Prelude AS.Base.Hex AS.Base.Dec AS.Base.Template AS.Base.Exchange AS.Gen.Extracted AS.Model.DeviceTools AS.Model.Messages AS.Model.Remotes AS.Model.Api AS.Proofs.TotalityProofs AS.Proofs.ApiProofs.
-
-(* the type-1 reply parser raises nothing but KeyError / ValueError, for every reply *)
+Require Import AS.Base.Prelude AS.Base.Hex AS.Base.Dec AS.Base.Template AS.Base.Exchange AS.Gen.Extracted AS.Model.DeviceTools
+  AS.Model.Messages AS.Model.Remotes AS.Model.Api AS.Proofs.TotalityProofs AS.Proofs.ApiProofs AS.Proofs.Queries.
 Local Open Scope N_scope.
-Theorem C09_parser_exceptions r e : parse_state_reply r = Exc e -> kv e.
+
+(* the three reply parsers raise nothing but what the API wraps into RuntimeError (KeyError / ValueError and their
+   subclasses), for every reply; OverflowError of datetime.time is unreachable from a 4-byte field *)
+Theorem C09_type1_parser_exceptions r e : parse_state_reply r = Exc e -> kv e.
 Proof. exact (parse_state_reply_exn r e). Qed.
-Print Assumptions C09_parser_exceptions.
-Local Close Scope N_scope.
+Print Assumptions C09_type1_parser_exceptions.
+Theorem C09_thermostat_parser_exceptions r e : parse_thermostat_reply r = Exc e -> wrapped e = true.
+Proof. exact (parse_thermostat_reply_exn r e). Qed.
+Print Assumptions C09_thermostat_parser_exceptions.
+Theorem C09_shutter_parser_exceptions r e : parse_shutter_reply r = Exc e -> wrapped e = true.
+Proof. exact (parse_shutter_reply_exn r e). Qed.
+Print Assumptions C09_shutter_parser_exceptions.
 
-(* partial (type-1 state query): for every reply script the call returns a response or raises RuntimeError; one frame on an empty login reply *)
-Local Open Scope N_scope.
-Theorem C09_get_state_total_partial c now script : wf_cfg c -> now < 4294967296 -> script_wf script ->
+(* each state query, for every script of device replies: a parsed response or RuntimeError, never another exception;
+   one frame and RuntimeError on an empty login reply, two frames otherwise *)
+Theorem C09_get_state c now script : wf_cfg c -> now < 4294967296 -> script_wf script ->
   let '(fs, r) := Exchange.run (get_state c now) script in
   ((exists v, r = Ok v) \/ r = Exc RuntimeError) /\
   (hd [] script = [] -> length fs = 1%nat /\ r = Exc RuntimeError) /\
   (hd [] script <> [] -> length fs = 2%nat).
 Proof. exact (get_state_exchange c now script). Qed.
-Print Assumptions C09_get_state_total_partial.
-Local Close Scope N_scope.
+Print Assumptions C09_get_state.
+Theorem C09_get_breeze_state c now script : wf_cfg c -> now < 4294967296 -> script_wf script ->
+  let '(fs, r) := Exchange.run (get_breeze_state c now) script in
+  ((exists v, r = Ok v) \/ r = Exc RuntimeError) /\
+  (hd [] script = [] -> length fs = 1%nat /\ r = Exc RuntimeError) /\ (hd [] script <> [] -> length fs = 2%nat).
+Proof. intros Hc Hn. exact (breeze_state_exchange c now Hc Hn script). Qed.
+Print Assumptions C09_get_breeze_state.
+Theorem C09_get_shutter_state c now script : wf_cfg c -> now < 4294967296 -> script_wf script ->
+  let '(fs, r) := Exchange.run (get_shutter_state c now) script in
+  ((exists v, r = Ok v) \/ r = Exc RuntimeError) /\
+  (hd [] script = [] -> length fs = 1%nat /\ r = Exc RuntimeError) /\ (hd [] script <> [] -> length fs = 2%nat).
+Proof. intros Hc Hn. exact (shutter_state_exchange c now Hc Hn script). Qed.
+Print Assumptions C09_get_shutter_state.
 
-(* thermostat control on an empty login reply: RuntimeError and no further frame *)
-Local Open Scope N_scope.
-Theorem C09_breeze_empty_login lg c now r state mode target fan swing update script :
+(* empty login reply: every type-2 operation raises RuntimeError having written the login frame only *)
+Theorem C09_type2_operation_empty_login c now t extra fix_len script : wf_cfg c -> now < 4294967296 -> hd [] script = [] ->
+  let '(fs, r) := Exchange.run (type2_op false c now t extra fix_len) script in length fs = 1%nat /\ r = Exc RuntimeError.
+Proof. intros Hc Hn. exact (type2_op_empty_login c now Hc Hn t extra fix_len script). Qed.
+Print Assumptions C09_type2_operation_empty_login.
+Theorem C09_thermostat_control_empty_login lg c now r state mode target fan swing update script :
   wf_cfg c -> now < 4294967296 -> hd [] script = [] ->
   let '(fs, res) := Exchange.run (control_breeze_device lg c now r state mode target fan swing update) script in
   length fs = 1%nat /\ res = Exc RuntimeError.
 Proof. exact (breeze_empty_login lg c now r state mode target fan swing update script). Qed.
-Print Assumptions C09_breeze_empty_login.
-Local Close Scope N_scope.
+Print Assumptions C09_thermostat_control_empty_login.
 
+(* a generic response reports success iff the reply is non-empty *)
+Theorem C09_successful_iff r : successful r = true <-> r <> [].
+Proof. exact (successful_iff r). Qed.
+Print Assumptions C09_successful_iff.
